@@ -74,7 +74,7 @@ def uciGoDepth (z : ZTable) (u : UciM) (limit : Nat) : UciM × String :=
     match fuel with
     | 0 => (tt, best)
     | fuel + 1 =>
-      let (res, st) := alphaBetaSearch g fullExploration .static wf d Score.negInfScore Score.infScore { tt := tt }
+      let (res, st) := alphaBetaSearch g (constEx fullExploration) .static wf d Score.negInfScore Score.infScore { tt := tt }
       match res with
       | none => (st.tt, best)
       | some sr =>
